@@ -32,7 +32,7 @@ type c09Mut struct {
 }
 
 type c09Step struct {
-	Op     string  `json:"op"`            // hs | rec | raw | ccs | absorb | frag | foreign | chain
+	Op     string  `json:"op"`            // hs | rec | raw | rawcbc | ccs | absorb | frag | foreign | chain
 	Msg    string  `json:"msg,omitempty"` // hs: CH SH HVR CERT SKX CR SHD CKX CV FIN
 	Mut    *c09Mut `json:"mut,omitempty"`
 	Typ    int     `json:"typ,omitempty"`  // rec: record type; frag: handshake type
@@ -265,6 +265,13 @@ func c09Exec(p *puppet.Peer, in c09Ep) {
 					p.Absorb(5)
 				}
 			}
+			p.Absorb(5)
+		case "rawcbc": // a CBC record that decrypts to Len bytes all equal to Off (valid padding of Off+1 bytes, no room checked for a MAC)
+			pt := make([]byte, st.Len)
+			for i := range pt {
+				pt[i] = byte(st.Off)
+			}
+			p.SendRaw(p.SealRawCBC(byte(st.Typ), pt))
 			p.Absorb(5)
 		case "raw":
 			pl := c09Payload(st)
